@@ -213,6 +213,10 @@ CHECKS['C14']['text'] = CHECKS['C14']['text'] + ' Borrowed from C16: the functio
 for _k in ('C01', 'C02', 'C03', 'C04', 'C05', 'C06', 'C07', 'C08', 'C09', 'C10', 'C11', 'C12', 'C13', 'C14', 'C16', 'C17', 'C18', 'C19', 'C20'):
     CHECKS[_k]['text'] = CHECKS[_k]['text'] + ' Shared clause VALUE-IDENTITY: no function reachable from the entry points compares a string / number / tuple value with `is`.'
     CHECKS[_k]['technique'] += '; syntax-tree lint for identity comparison against value literals and module constants (resolved through imports)'
+CHECKS['C03']['text'] = CHECKS['C03']['text'] + ' INDEX-DTYPE: the midpoint arrays are integer arrays for every flank count (no returned np.array of a run-time list without an integer dtype).'
+CHECKS['C03']['technique'] += '; syntax-tree lint for untyped index arrays'
+CHECKS['C01']['text'] = CHECKS['C01']['text'] + ' Borrowed from C03: MID-DEF, ZEROX-DEF, INDEX-DTYPE (the midpoints of every row are the arrays find_zerox returns).'
+CHECKS['C01']['technique'] += '; rules borrowed from the property that anchors a function this one depends on (sa/check.py:BORROWED)'
 CHECKS['C01']['technique'] += '; version-keyed API lint (np.array copy=False)'
 CHECKS['C09']['technique'] += '; closed effect summary with depth tracking through shallow copies'
 for _k in CHECKS:
